@@ -45,7 +45,33 @@ def replay(lentil, rec, fields, ctx):
     pool = {'P': lentil.Pupil(amplitude=AMP.astype(float), opd=BASES[0] * unit, mask=np.ones(SHAPE, int),
                               pixelscale=(float(DX[0]), float(DX[1])), focal_length=float(Z))}
     hist = []
-    kept = []            # wavefronts the caller holds (action Pass)
+    kept = []            # wavefronts the caller holds (actions Pass, PassVia)
+    mk_plane = lambda opd: lentil.Pupil(amplitude=AMP.astype(float), opd=opd, mask=np.ones(SHAPE, int),
+                                        pixelscale=(float(DX[0]), float(DX[1])), focal_length=float(Z))
+    ang_of = lambda k: mk_plane(ramp(k) * unit).fit_tilt().tilt[-1]          # the Tilt that a ramp of k steps is worth (fit_tilt's own convention)
+
+    def disp_coef(k):
+        x, y = ang_of(k).shift(xs=0.0, ys=0.0, z=float(Z))                   # focal-plane displacement in metres
+        return [0.0, float(y)], [1.0, float(LAM) - float(x)]                 # first-order trace y = 0 x + t0, dispersion lambda = 1 d + d1
+
+    if rec.get('kind', 'ang') == 'ang':
+        import copy as _copy
+        elem = _copy.copy(ang_of([0, 0]))
+    else:
+        tr0, di0 = disp_coef([0, 0])
+        elem = lentil.DispersiveTilt(trace=tr0, dispersion=di0)
+
+    def steer(k, inplace):
+        if rec.get('kind', 'ang') == 'ang':
+            t = ang_of(k)
+            elem.x, elem.y = t.x, t.y
+        else:
+            tr, di = disp_coef(k)
+            if inplace:
+                elem.trace[1] = tr[1]
+                elem.dispersion[1] = di[1]
+            else:
+                elem.trace, elem.dispersion = np.array(tr), np.array(di)
 
     def observe(s, eff, k, w=None):
         if w is None:
@@ -59,7 +85,9 @@ def replay(lentil, rec, fields, ctx):
             acts = [h.split(':')[0] for h in hist]
             nfit = sum(1 for a in acts if a.startswith('Fit'))
             ctx.violation({'kind': 'observation-depends-on-history', 'fits_before': min(nfit, 2),
-                           'copied': any(a in ('Copy', 'FitCopy') for a in acts), 'held_wavefront': w is not None,
+                           'copied': any(a in ('Copy', 'FitCopy') for a in acts), 'held_wavefront': w is not None and acts[-1] != 'ObserveVia',
+                           'element': rec.get('kind', 'ang') if any(a in ('PassVia', 'ObserveVia') for a in acts) else 'none',
+                           'element_steered': any(a in ('Steer', 'EditElem') for a in acts),
                            'tilt_trimmed': 'TrimTilt' in acts, 'shallow_fit': 'ShallowFit' in acts},
                           {'history': list(hist), 'observed_plane': s if w is None else 'a wavefront held since it passed', 'effective_state': eff,
                            'max_abs_error': float(np.abs(f - e).max()) if f.shape == e.shape else None},
@@ -84,10 +112,18 @@ def replay(lentil, rec, fields, ctx):
             pool[st['arg']] = pool[s].copy()
         elif a == 'Pass':
             kept.append(lentil.Wavefront(float(LAM)) * pool[s])
+        elif a == 'PassVia':
+            kept.append(lentil.Wavefront(float(LAM)) * pool[s] * elem)
+        elif a == 'Steer':
+            steer(st['arg'], inplace=False)
+        elif a == 'EditElem':
+            steer(st['arg'], inplace=True)
+        elif a == 'ObserveVia':
+            if not observe(s, st['exp'], k, w=lentil.Wavefront(float(LAM)) * pool[s] * elem):
+                return
         elif a == 'TrimTilt':
             # the angles that a ramp of k steps is worth, in the convention fit_tilt itself records them
-            d = lentil.Pupil(amplitude=AMP.astype(float), opd=ramp(st['arg']) * unit, mask=np.ones(SHAPE, int),
-                             pixelscale=(float(DX[0]), float(DX[1])), focal_length=float(Z)).fit_tilt().tilt[-1]
+            d = ang_of(st['arg'])
             t = pool[s].tilt[-1]
             t.x += d.x
             t.y += d.y
@@ -118,7 +154,7 @@ def run(ctx, lentil):
     recs = []
     r = run_tlc('MC_PlaneHist', env={'PH_LEN': 3 if q else 4}, workers=4, timeout=900, coverage=True)
     ctx.add_tlc(r, f"MC_PlaneHist exhaustive length {3 if q else 4}")
-    ctx.require_coverage(r, ['AddRamp', 'AddRampIn', 'SetBase', 'FitIn', 'FitCopy', 'Copy', 'Observe', 'Pass', 'TrimTilt', 'ShallowFit', 'ObserveHeld'])
+    ctx.require_coverage(r, ['AddRamp', 'AddRampIn', 'SetBase', 'FitIn', 'FitCopy', 'Copy', 'Observe', 'Pass', 'TrimTilt', 'ShallowFit', 'ObserveHeld', 'Steer', 'EditElem', 'PassVia', 'ObserveVia'])
     recs += r.emits
     r2 = run_tlc('MC_PlaneHist', env={'PH_LEN': 8}, workers=1, timeout=900, simulate=f"num={1500 if q else 12000}", depth=9, seed=ctx.seed + 11)
     ctx.add_tlc(r2, 'MC_PlaneHist simulate length 8')
@@ -126,7 +162,7 @@ def run(ctx, lentil):
     effs = set()
     for rec in recs:
         for st in rec['prog']:
-            if st['act'] in ('Observe', 'ObserveHeld'):
+            if st['act'] in ('Observe', 'ObserveHeld', 'ObserveVia'):
                 effs.add((st['exp']['base'], tuple(st['exp']['total'])))
         for s, fin in rec['final'].items():
             if fin['present']:
